@@ -324,12 +324,12 @@ type storedCut struct {
 // ---------------------------------------------------------------- pipeline state
 
 var (
-	pc       *mcache.Cache
-	pe       *edns.EDNS
-	ecsOn    bool
-	entries  map[int]*storedEntry
-	failures map[int]*storedFailure
-	cuts     map[int]*storedCut
+	pc               *mcache.Cache
+	pe               *edns.EDNS
+	ecsOn            bool
+	entries          map[int]*storedEntry
+	failures         map[int]*storedFailure
+	cuts             map[int]*storedCut
 	lastPurgeRemoved string
 )
 
